@@ -7,6 +7,8 @@ import (
 	"os"
 	"sort"
 	"strconv"
+
+	"github.com/flosch/pongo2/v6"
 )
 
 func main() {
@@ -15,6 +17,15 @@ func main() {
 		os.Exit(2)
 	}
 	switch os.Args[1] {
+	case "eval7":
+		// development aid: vrun eval7 '<template source>' renders with C07's context
+		tpl, err := pongo2.FromString(os.Args[2])
+		if err != nil {
+			fmt.Println("compile error:", err)
+			return
+		}
+		out, err := tpl.Execute(c07Ctx())
+		fmt.Printf("%q err=%v\n", out, err)
 	case "gendiag":
 		diagExprOnly = len(os.Args) > 2
 		gendiag()
